@@ -56,3 +56,11 @@ Proof.
   { vm_compute. repeat constructor; discriminate. }
   left. reflexivity.
 Qed.
+
+(** The full statement about `eval` line numbers fails on the model of the unchanged code:
+    eval'ed from line 3, the one-line text reports line 1, bash's rule says 3. *)
+Lemma eval_lineno_refuted :
+  ~ eval_lineno_stmt (list nat) nat unit t_exec (fun _ _ st => st) t_parse t_keq (fun _ s => s) (fun s => firstn 64 s).
+Proof.
+  intros H. specialize (H [] tt [101; 10]%N 0%nat 3%nat []). vm_compute in H. discriminate.
+Qed.
